@@ -19,12 +19,13 @@ import math
 import numpy as np
 
 from gridrv.oracles import numdiff as nd
+from gridrv.oracles import signatures_c0304 as sig
 
 PROP = "C03"
 TITLE = "Radial transforms are analytically self-consistent for all parameters"
 KINDS = ["Becke", "LinearFinite", "Identity", "LinearInfinite", "Exp", "Power", "Hyperbolic", "MultiExp", "Knowles", "Handy", "HandyMod"]
 CLS = {k: k + "RTransform" for k in KINDS}
-REQUIRED_FAMILIES = [CLS[k] for k in KINDS] + ["InverseRTransform", "pinned", "boundary"]
+REQUIRED_FAMILIES = [CLS[k] for k in KINDS] + ["InverseRTransform", "pinned", "boundary", "construction"]
 REQUIRED_HOOKS = [f"decided:{c}:{m}" for c in list(CLS.values()) + ["InverseRTransform"] for m in ("deriv", "deriv2", "deriv3", "deriv_inverse", "deriv2_inverse", "deriv3_inverse", "roundtrip", "endpoint")]
 BUDGET = {"quick": 900, "thorough": 7200}  # per-worker seconds; expected on 16 idle cores: quick ~10 s, thorough ~3-4 min
 MAX_DISCARD_FRACTION = 0.02
@@ -89,13 +90,18 @@ def cases(tier, seed):
     for rep in range(reps):
         for kind, p in base:
             cost = 2.0 if kind == "Hyperbolic" else 1.0
-            out.append((CLS[kind], {"kind": kind, **p, "rep": rep}, cost))
+            pos = {"pos": True} if rep % 2 else {}  # every second repetition constructs the object positionally
+            out.append((CLS[kind], {"kind": kind, **p, "rep": rep, **pos}, cost))
             if tier == "thorough" or rep == 0 or p.get("trim", True):
-                out.append(("InverseRTransform", {"kind": kind, **p, "rep": rep, "inv": True}, cost * 1.2))
+                out.append(("InverseRTransform", {"kind": kind, **p, "rep": rep, "inv": True, **pos}, cost * 1.2))
     # structured boundary parameter values x spellings (both tiers; forward and wrapped)
-    for kind, p in _boundary():
-        out.append(("boundary", {"kind": kind, **p}, 1.5))
-        out.append(("boundary", {"kind": kind, **p, "inv": True}, 1.5))
+    for j, (kind, p) in enumerate(_boundary()):
+        pos = {"pos": True} if j % 2 else {}
+        out.append(("boundary", {"kind": kind, **p, **pos}, 1.5))
+        out.append(("boundary", {"kind": kind, **p, "inv": True, **pos}, 1.5))
+    # positional vs keyword construction of every class, both values of every boolean flag, b given / learned
+    for kind, p in construction_sets():
+        out.append(("construction", {"kind": kind, **p}, 1.0))
     # pinned deterministic witnesses (fixed parameters, both tiers, run first)
     out.append(("pinned", {"kind": "HandyMod", "rmin": 0.0, "m": 3, "trim": True, "fixed": {"rmax": 12.0}}, 1e9))
     out.append(("pinned", {"kind": "HandyMod", "rmin": 0.1, "m": 2.5, "trim": True, "fixed": {"rmax": 9.1}}, 1e9))
@@ -186,7 +192,12 @@ def build(params, rng):
         I.tag += ":" + I.spell
     # the inverse maps of these classes contain a 1/k-th (1/m-th, 1/power-th) root: branch point at the lower end
     I.gfrac = 0.25 if kind in ("Knowles", "Handy", "HandyMod", "Power") else 0.5
-    I.tf = getattr(rt, CLS[kind])(**I.args)
+    I.positional = bool(params.get("pos"))
+    if I.positional:
+        # ALL documented parameters passed positionally in the documented order (literal table, not inspect)
+        I.tf = sig.positional(getattr(rt, CLS[kind]), sig.TRANSFORM_ORDER[CLS[kind]], I.args)
+    else:
+        I.tf = getattr(rt, CLS[kind])(**I.args)
     I.name = CLS[kind] + I.tag
     # interior sample, clustered towards both ends
     u = np.sort(np.cos(np.pi * rng.uniform(0, 1, NPTS)))  # in (-1, 1)
@@ -261,6 +272,29 @@ def _boundary():
     for a, b in ((1, 2.0**-6), (2, 2.0**-7), (1, 2.0**-10)):
         i += 1
         out.append(("Hyperbolic", {"v": 0, "fixed": {"a": float(a), "b": b}, "spell": SPELLINGS[i % 4], "edge": "round"}))
+    return out
+
+
+def construction_sets():
+    """Parameter sets of the construction family (seed independent discrete part; continuous values from the case RNG)."""
+    out = []
+    for trim in (True, False):
+        for rmin in (0.0, 0.1):
+            out.append(("Becke", {"rmin": rmin, "trim": trim}))
+            out.append(("MultiExp", {"rmin": rmin, "trim": trim}))
+            for km in (1, 2, 2.5):
+                out.append(("Knowles", {"rmin": rmin, "k": km, "trim": trim}))
+                out.append(("Handy", {"rmin": rmin, "m": km, "trim": trim}))
+                out.append(("HandyMod", {"rmin": rmin, "m": km, "trim": trim}))
+    for rmin in (0.0, -1.5, 1.0):
+        out.append(("LinearFinite", {"rmin": rmin}))
+    out.append(("Identity", {}))
+    for bmode in ("explicit", "learned"):
+        for kind in ("LinearInfinite", "Exp", "Power"):
+            for rmin in (0.1, 1.0):
+                out.append((kind, {"rmin": rmin, "bmode": bmode}))
+    out.append(("Hyperbolic", {"v": 0}))
+    out.append(("Hyperbolic", {"v": 1}))
     return out
 
 
@@ -850,8 +884,13 @@ def run_case(ctx, family, params):
 
     I = build(params, ctx.rng)
     note = _note(I)
+    if I.positional:
+        note["_constructed"] = "positional"
     ctx.case_note("args", note)
     tf = I.tf
+    if family == "construction":
+        _construction(ctx, I)
+        return
     if params.get("bmode") == "learned":
         # the scale point b is learned from the first array the object sees: show it the sample first
         with ctx.guard("forward-evaluates", I.name):
@@ -924,6 +963,39 @@ def run_case(ctx, family, params):
         check_dtypes(ctx, name, inv, r[res["vi"]], xx, xint, rint, lambda names: False, note)
         if not res["any"]:
             ctx.trivial()
+
+
+def _construction(ctx, I):
+    """Positional (documented order) vs keyword construction: same attributes, same outputs of all 8 methods; wrapper too."""
+    import grid.rtransform as rt
+
+    cname = CLS[I.kind]
+    cls = getattr(rt, cname)
+    order = sig.TRANSFORM_ORDER[cname]
+    pos, kw = sig.construct_both(ctx, cls, order, I.args, cname)
+    if pos is None or kw is None:
+        return
+    sig.compare_transforms(ctx, cname, pos, kw, sig.TRANSFORM_ATTRS[cname], I.args, I.x)
+    # the wrapper: InverseRTransform(transform)
+    wp, wk = sig.construct_both(ctx, rt.InverseRTransform, ("transform",), {"transform": kw}, f"InverseRTransform({cname})")
+    if wp is not None and wk is not None:
+        with np.errstate(all="ignore"):
+            r = np.asarray(kw.transform(I.x), dtype=float).reshape(-1)
+        r = r[np.isfinite(r) & (r > I.gb[0]) & (r < I.gb[1])]
+        if r.size:
+            sig.compare_transforms(ctx, f"InverseRTransform({cname})", wp, wk, (), {}, r)
+    if I.kind == "Becke":
+        # static helper BeckeRTransform.find_parameter(array, rmin, radius)
+        arr = np.sort(ctx.rng.uniform(-1, 1, 7))
+        rmin, radius = 0.1, 1.7
+        res = {}
+        with ctx.guard("positional-equals-keyword", "BeckeRTransform.find_parameter"):
+            res["p"] = cls.find_parameter(arr, rmin, radius)
+            res["k"] = cls.find_parameter(array=arr, rmin=rmin, radius=radius)
+        if "k" in res:
+            mid = arr[3]
+            ctx.check("positional-equals-keyword", "BeckeRTransform.find_parameter", res["p"] == res["k"], sig="outputs-differ:find_parameter")
+            ctx.check("positional-binds-documented-order", "BeckeRTransform.find_parameter", abs(res["p"] - (radius - rmin) * (1 - mid) / (1 + mid)) <= 1e-12 * abs(res["p"]), sig="find_parameter!=(radius-rmin)(1-x_mid)/(1+x_mid)")
 
 
 def _secondary(ctx, I, res):
